@@ -49,9 +49,9 @@ def _checkpoint():
 
 
 class Proc:
-    def __init__(self, exited, exit_on_term, exit_on_kill, term_raises):
+    def __init__(self, exited, exit_on_term, exit_on_kill, term_raises, kill_raises=False):
         self.returncode = 0 if exited else None
-        self.exit_on_term, self.exit_on_kill, self.term_raises = exit_on_term, exit_on_kill, term_raises
+        self.exit_on_term, self.exit_on_kill, self.term_raises, self.kill_raises = exit_on_term, exit_on_kill, term_raises, kill_raises
         self.log = []
         self.pid = 1
         self.stdin = None
@@ -64,6 +64,8 @@ class Proc:
 
     def kill(self):
         self.log.append("kill")
+        if self.kill_raises:
+            raise ProcessLookupError()  # the child died between the timed-out wait and the signal
 
     async def wait(self):
         _checkpoint()
@@ -106,11 +108,11 @@ class TG:
         return None
 
 
-def shutdown(exited, exit_on_term, exit_on_kill, term_raises, tg_mode, outer_cancel, has_tg):
+def shutdown(exited, exit_on_term, exit_on_kill, term_raises, tg_mode, outer_cancel, has_tg, kill_raises=False):
     ENV.reset([])
     W.outer_cancelled, W.shield_depth = bool(outer_cancel), 0
     c = make_client()
-    p = Proc(exited, exit_on_term, exit_on_kill, term_raises)
+    p = Proc(exited, exit_on_term, exit_on_kill, term_raises, kill_raises)
     c.process = p
     tg = TG(tg_mode) if has_tg else None
     c.tg = tg
